@@ -101,6 +101,14 @@ func (agc *AggregatorContext) sanityCheck(msg *types.MsgCreatePrice) error {
 		if len(pSource.Prices) == 0 || len(pSource.Prices) > int(common.MaxDetID) || !agc.params.IsValidSource(pSource.SourceID) {
 			return errors.New("source should be valid and provide at least one price")
 		}
+		// every price is parsed as a base-10 integer further down; a string that does not parse
+		// leaves a nil price in the round's memory after the transaction has failed, and every
+		// later report for that source round then fails on it
+		for _, pDetID := range pSource.Prices {
+			if _, ok := new(big.Int).SetString(pDetID.Price, 10); !ok {
+				return errors.New("price should be a base-10 integer")
+			}
+		}
 		// check with params is coressponding source is deteministic
 		if agc.params.IsDeterministicSource(pSource.SourceID) {
 			for _, pDetID := range pSource.Prices {
